@@ -130,7 +130,10 @@ def replay_factory(cfg_idx):
         problems = check_invariant(real, m, None)
         for i, ev in enumerate(hist):
             last = i == len(hist) - 1
-            step_problems = step(real, m, ev)
+            try:
+                step_problems = step(real, m, ev)
+            except Exception as e:  # the real API raised on an event the model allows
+                step_problems = [(f"event {ev} raised {type(e).__name__}: {e}", {"kind": "event-raised", "event": _ek(ev), "exc": type(e).__name__})]
             inv = check_invariant(real, m, ev)
             if last:
                 problems = step_problems + inv
